@@ -233,6 +233,16 @@ def b_float(interp, args, kwargs, node):
     raise Unsupported(f'float() of {type(v).__name__}', node)
 
 
+def b_isfinite(interp, args, kwargs, node):
+    v = args[0]
+    if isinstance(v, (SFloat, SInt, SBool)):
+        trust(interp, 'A-FLOAT: a symbolic float is a real number (finite): overflow to inf / nan is not modelled')
+        return True
+    if isinstance(v, (int, float)):
+        return math.isfinite(v)
+    interp.raise_exc('TypeError', 'must be real number', node)
+
+
 def b_bool(interp, args, kwargs, node):
     if not args:
         return False
@@ -1443,6 +1453,7 @@ def make_externals(world):
     reg('math.trunc', b_trunc)
     reg('math.copysign', b_copysign)
     reg('math.isclose', b_isclose)
+    reg('math.isfinite', b_isfinite)
     reg('collections.abc.Iterable', None)
     ext['collections.abc.Iterable'] = Builtin('Iterable', None)
     ext['collections.abc'] = ExternalModule('collections.abc')
